@@ -1,7 +1,9 @@
 (* C09 — cohort tables add up to the totals and each cohort is conserved.  Statements only. *)
 From Coq Require Import List Arith Field_theory.
 Import ListNotations.
-From Flodym Require Import Base.ND Model.Stocks Proofs.StockAlgebra Proofs.StockModel Proofs.StockRoundtrip.
+From Flodym Require Import Base.ND Model.Stocks Proofs.StockAlgebra Proofs.StockModel Proofs.StockRoundtrip Proofs.C09More.
+From Coq Require Import QArith Qcanon.
+Local Open Scope nat_scope.
 
 Section G.
 Variable F : Type.
@@ -40,7 +42,28 @@ Theorem C09_stock_driven_tables : forall n dt sf s,
   /\ o_sbc F (sdsm n dt s sf) = o_sbc F (idsm n dt (o_inflow F (sdsm n dt s sf)) sf)
   /\ o_obc F (sdsm n dt s sf) = o_obc F (idsm n dt (o_inflow F (sdsm n dt s sf)) sf).
 Proof. intros; eapply sdsm_as_idsm; eauto. Qed.
+(* both tables are zero for cohorts later than the year (for every survival table that is zero there) *)
+Theorem C09_stock_by_cohort_zero_for_later_cohorts : forall n dt inflow sf, length dt = n -> length inflow = n ->
+  (forall t c, t < c -> nth2 sf t c = fO) -> forall t c, t < c -> c < n -> nth2 (o_sbc F (idsm n dt inflow sf)) t c = fO.
+Proof. intros; eapply sbc_zero_later_cohorts; eauto. Qed.
+
+Theorem C09_outflow_by_cohort_zero_for_later_cohorts : forall n dt inflow sf, length dt = n -> length inflow = n ->
+  forall t c, t < c -> c < n -> nth2 (o_obc F (idsm n dt inflow sf)) t c = fO.
+Proof. intros; eapply obc_zero_later_cohorts; eauto. Qed.
 End G.
+
+(* a cohort's stock never increases over time for a non-negative inflow, whenever its survival share does not (rational numbers) *)
+Theorem C09_cohort_stock_never_increases :
+  forall (n : nat) (dt inflow : list Qc) (sf : list (list Qc)) t c,
+  length dt = n -> length inflow = n -> S t < n -> c < n ->
+  (0 <= nth c inflow 0 * nth c dt 0)%Qc ->
+  (nth c (nth (S t) sf []) 0 <= nth c (nth t sf []) 0)%Qc ->
+  (nth c (nth (S t) (o_sbc Qc (Stocks.idsm Qc 0%Qc 1%Qc Qcplus Qcmult Qcminus Qcdiv true n dt inflow sf)) []) 0%Qc
+   <= nth c (nth t (o_sbc Qc (Stocks.idsm Qc 0%Qc 1%Qc Qcplus Qcmult Qcminus Qcdiv true n dt inflow sf)) []) 0%Qc)%Qc.
+Proof. exact cohort_stock_never_increases. Qed.
+Print Assumptions C09_stock_by_cohort_zero_for_later_cohorts.
+Print Assumptions C09_outflow_by_cohort_zero_for_later_cohorts.
+Print Assumptions C09_cohort_stock_never_increases.
 Print Assumptions C09_stock_is_cohort_sum.
 Print Assumptions C09_outflow_is_cohort_sum.
 Print Assumptions C09_cohort_stock_entry.
